@@ -51,19 +51,20 @@ type sizeSpec struct {
 	vb      aff     // user units -> px of the viewport
 	uniform bool    // viewBox aspect ratio equals the viewport's (no preserveAspectRatio question)
 	desc    string
+	vw, vh  float64 // size of the viewport in user units (what percentages refer to)
 }
 
 var sizes = []sizeSpec{
-	{`width="100mm" height="60mm" viewBox="0 0 100 60"`, 100, 60, scale(100/pxmm/100, 60/pxmm/60), true, "mm size, viewBox 1 unit = 1mm"},
-	{`width="200" height="100"`, 200 * pxmm, 100 * pxmm, ident, true, "px size, no viewBox"},
-	{`width="100mm" height="60mm" viewBox="0 0 200 120"`, 100, 60, scale(0.5/pxmm, 0.5/pxmm), true, "viewBox scales by 0.5mm per unit"},
-	{`width="100mm" height="60mm" viewBox="10 20 100 60"`, 100, 60, scale(1/pxmm, 1/pxmm).mul(translate(-10, -20)), true, "viewBox with offset"},
-	{`viewBox="0 0 96 48"`, 96 * pxmm, 48 * pxmm, ident, true, "size from the viewBox"},
-	{`width="100mm" height="60mm" viewBox="0,0,100,60"`, 100, 60, scale(1/pxmm, 1/pxmm), true, "viewBox separated by commas"},
-	{`width="100mm" height="60mm" viewBox="0 0 100 30"`, 100, 60, translate(0, 30*0/pxmm).mul(scale(1/pxmm, 1/pxmm)).mul(translate(0, 15)), false, "anisotropic viewBox (default preserveAspectRatio xMidYMid meet)"},
+	{`width="100mm" height="60mm" viewBox="0 0 100 60"`, 100, 60, scale(100/pxmm/100, 60/pxmm/60), true, "mm size, viewBox 1 unit = 1mm", 100, 60},
+	{`width="200" height="100"`, 200 * pxmm, 100 * pxmm, ident, true, "px size, no viewBox", 200, 100},
+	{`width="100mm" height="60mm" viewBox="0 0 200 120"`, 100, 60, scale(0.5/pxmm, 0.5/pxmm), true, "viewBox scales by 0.5mm per unit", 200, 120},
+	{`width="100mm" height="60mm" viewBox="10 20 100 60"`, 100, 60, scale(1/pxmm, 1/pxmm).mul(translate(-10, -20)), true, "viewBox with offset", 100, 60},
+	{`viewBox="0 0 96 48"`, 96 * pxmm, 48 * pxmm, ident, true, "size from the viewBox", 96, 48},
+	{`width="100mm" height="60mm" viewBox="0,0,100,60"`, 100, 60, scale(1/pxmm, 1/pxmm), true, "viewBox separated by commas", 100, 60},
+	{`width="100mm" height="60mm" viewBox="0 0 100 30"`, 100, 60, translate(0, 30*0/pxmm).mul(scale(1/pxmm, 1/pxmm)).mul(translate(0, 15)), false, "anisotropic viewBox (default preserveAspectRatio xMidYMid meet)", 100, 30},
 	// preserveAspectRatio="none": the viewBox is stretched to the viewport, each axis with its own factor
-	{`width="100mm" height="60mm" viewBox="10 20 100 30" preserveAspectRatio="none"`, 100, 60, scale(1/pxmm, 2/pxmm).mul(translate(-10, -20)), true, "stretched viewBox with offset (y doubled)"},
-	{`width="100mm" height="60mm" viewBox="-5 8 50 60" preserveAspectRatio="none"`, 100, 60, scale(2/pxmm, 1/pxmm).mul(translate(5, -8)), true, "stretched viewBox with offset (x doubled)"},
+	{`width="100mm" height="60mm" viewBox="10 20 100 30" preserveAspectRatio="none"`, 100, 60, scale(1/pxmm, 2/pxmm).mul(translate(-10, -20)), true, "stretched viewBox with offset (y doubled)", 100, 30},
+	{`width="100mm" height="60mm" viewBox="-5 8 50 60" preserveAspectRatio="none"`, 100, 60, scale(2/pxmm, 1/pxmm).mul(translate(5, -8)), true, "stretched viewBox with offset (x doubled)", 50, 60},
 }
 
 type xf struct {
@@ -96,6 +97,14 @@ type shapeSpec struct {
 	closed bool
 	noFill bool
 	desc   string
+}
+
+// segsV: for shapes with percentages the geometry depends on the viewport size in user units
+var segsV = map[string]func(vw, vh float64) []oracle.Subpath{}
+
+func pctShape(xml string, closed, noFill bool, desc string, f func(vw, vh float64) []oracle.Subpath) shapeSpec {
+	segsV[desc] = f
+	return shapeSpec{xml, nil, closed, noFill, desc}
 }
 
 func poly(closed bool, xy ...float64) []oracle.Subpath {
@@ -177,6 +186,28 @@ var shapes = []shapeSpec{
 			oracle.Seg{Kind: oracle.CmdClose, P0: p(25, 18), P1: p(10, 10)})
 		return []oracle.Subpath{sp}
 	}, true, false, "path with elliptical arc"},
+	// percentages: x, width, rx of the viewport width, y, height, ry of its height, r of sqrt((w^2+h^2)/2) (SVG 1.1 7.10)
+	pctShape(`<rect x="10%%" y="25%%" width="30%%" height="50%%"%s/>`, true, false, "rect with percentages",
+		func(vw, vh float64) []oracle.Subpath {
+			return poly(true, 0.1*vw, 0.25*vh, 0.4*vw, 0.25*vh, 0.4*vw, 0.75*vh, 0.1*vw, 0.75*vh)
+		}),
+	pctShape(`<rect x="5" y="8" width="30" height="20" rx="5%%"%s/>`, true, false, "rounded rect, rx as a percentage, no ry",
+		func(vw, vh float64) []oracle.Subpath { return roundRect(5, 8, 30, 20, 0.05*vw, 0.05*vw) }),
+	pctShape(`<rect x="5" y="8" width="30" height="20" ry="5%%"%s/>`, true, false, "rounded rect, ry as a percentage, no rx",
+		func(vw, vh float64) []oracle.Subpath { return roundRect(5, 8, 30, 20, 0.05*vh, 0.05*vh) }),
+	pctShape(`<circle cx="40%%" cy="50%%" r="10%%"%s/>`, true, false, "circle with percentages",
+		func(vw, vh float64) []oracle.Subpath {
+			r := 0.1 * math.Sqrt((vw*vw+vh*vh)/2)
+			return ellipseSub(0.4*vw, 0.5*vh, r, r)
+		}),
+	pctShape(`<ellipse cx="30%%" cy="40%%" rx="12%%" ry="15%%"%s/>`, true, false, "ellipse with percentages",
+		func(vw, vh float64) []oracle.Subpath { return ellipseSub(0.3*vw, 0.4*vh, 0.12*vw, 0.15*vh) }),
+	pctShape(`<line x1="10%%" y1="20%%" x2="60%%" y2="45%%"%s/>`, false, true, "line with percentages",
+		func(vw, vh float64) []oracle.Subpath { return poly(false, 0.1*vw, 0.2*vh, 0.6*vw, 0.45*vh) }),
+	{`<rect x="1mm" y="0.5cm" width="0.5in" height="18pt"%s/>`, func() []oracle.Subpath {
+		x, y, w, h := 96/25.4, 0.5*960/25.4, 0.5*96, 18*96/72.0
+		return poly(true, x, y, x+w, y, x+w, y+h, x, y+h)
+	}, true, false, "rect with absolute units (mm, cm, in, pt)"},
 }
 
 // style variants: the attribute text for the shape element, an optional <style> block, attrs for
@@ -390,7 +421,11 @@ func check(r *fw.R, sz sizeSpec, g1, g2 xf, sh shapeSpec, st styleSpec) {
 		q := total.apply(p)
 		return oracle.Pt{X: q.X * pxmm, Y: sz.h - q.Y*pxmm}
 	}
-	expPls := oracle.Dense(sh.segs(), 128)
+	expSegs := sh.segs
+	if f := segsV[sh.desc]; f != nil {
+		expSegs = func() []oracle.Subpath { return f(sz.vw, sz.vh) }
+	}
+	expPls := oracle.Dense(expSegs(), 128)
 	for i := range expPls {
 		for j := range expPls[i].P {
 			expPls[i].P[j] = toMM(expPls[i].P[j])
